@@ -704,9 +704,19 @@ def shard_options(key):
             ws = (value if key == "trim_blocks" else False, value if key == "lstrip_blocks" else False)
             rec: list = []
             env = make_env(cfg, rec, ws)
-            t = env.from_string(src)
-            for c in COUNTS:
-                t.render(render_ctx(c))
+            try:
+                with core.alarm(10):
+                    t = env.from_string(src)
+                    for c in COUNTS:
+                        t.render(render_ctx(c))
+            except (Exception, core.CaseTimeout) as e:  # the fixed sources are legal and must render
+                p.evals += 1
+                p.violation("C33/render-error:%s/%s/option-source" % (type(e).__name__, cfg_name(cfg)), {
+                    "msg": "%s%s %r: %s: %s" % (cfg_name(cfg), ws_name(ws), src, type(e).__name__, e),
+                    "source": src, "config": cfg_name(cfg),
+                    "script": "from checks import c33\nc33.replay_site(%r, False)\n" % (src,),
+                })
+                continue
             passed = {(f, norm_msg(f, a)) for f, a in rec}
             for sp in spellings:
                 p.evals += 1
